@@ -23,18 +23,26 @@ from ..contentmodel import content_model_map, state_store
 from .c03 import model, graph
 
 LEVEL = "other"
-TECHNIQUE = ("evaluated dispatcher tables and constant tables compared with transcribed standard sets; pairing rules "
-             "(must-follow / must-precede on per-function CFGs); ambient-source and set-order lint over the parse path; "
-             "fragment-context vs. handler content-model agreement")
-CLAIM = ("Necessary structural conditions of WHATWG conformance, each over all code paths: the parser reads no ambient "
-         "state; dispatcher tables are well formed; switching the tokenizer to RCDATA/RAWTEXT/script data is always paired "
-         "with entering the text insertion mode; the formatting-element, scope-marker, form/head-pointer, foster-parenting "
-         "bracket and scope-variant pairings of the standard hold at every site; fragment contexts choose the tokenizer "
-         "state the corresponding start-tag handler chooses; the element tables, the frameset-ok and reconstruct-formatting start-tag "
-         "lists, the 55 quirks prefixes and the quirks decision, the tree-construction dispatcher condition and the "
-         "integration-point predicates equal the standard's; stack searches run in the standard's direction.")
-NOT_DECIDED = ("the tree itself: adoption agency, reconstruction of formatting elements, foster parenting positions, "
-               "insertion-mode transitions, quirks-mode effects.")
+TECHNIQUE = ('evaluated dispatcher tables and constant tables compared with transcribed standard sets; pairing '
+             'rules (must-follow / must-precede on per-function CFGs); ambient-source and set-order lint over the '
+             'parse path; fragment-context vs. handler content-model agreement; insertion-mode transition table '
+             '(allowed / required switches) over the resolved dispatcher call graph; guard partition of the '
+             'dispatcher and breakout conditions')
+CLAIM = ('Necessary structural conditions of WHATWG conformance, each over all code paths: the parser reads no '
+         'ambient state; dispatcher tables are well formed; switching the tokenizer to RCDATA/RAWTEXT/script '
+         'data is always paired with entering the text insertion mode; the formatting-element, scope-marker, '
+         'form/head-pointer, foster-parenting bracket and scope-variant pairings of the standard hold at every '
+         'site; fragment contexts choose the tokenizer state the corresponding start-tag handler chooses; the '
+         'element tables, the frameset-ok and reconstruct-formatting start-tag lists, the 55 quirks prefixes '
+         'and the quirks decision, the tree-construction dispatcher condition and the integration-point '
+         "predicates equal the standard's; stack searches run in the standard's direction. Every insertion- "
+         "mode switch is one the standard's steps for that mode and token make, and every switch the standard "
+         "requires is reachable from that token's handler; backward scans of the formatting list stop at "
+         'markers; a stale formatting element is removed from both lists; the foreign-content breakout pops to '
+         'an HTML element or integration point; a discarded delegation result cannot lose a reprocess request.')
+NOT_DECIDED = ('the tree itself: adoption agency, reconstruction of formatting elements, foster parenting positions, '
+               'the conditions under which a mode switch is taken (only its possible and required targets are '
+               'decided), quirks-mode effects.')
 MODULES = ["html5parser.py", "treebuilders/base.py", "constants.py", "_tokenizer.py", "_inputstream.py", "_utils.py"]
 
 DATA = os.path.join(os.path.dirname(os.path.dirname(os.path.abspath(__file__))), "data", "whatwg_sets.json")
